@@ -243,6 +243,9 @@ type Artifact struct {
 	WindowNote string
 	Semantic   []SemMut
 	Notes      []string
+	// ExpectRejected: the artifact as signed must NOT verify (signer certificate
+	// outside its validity period); only its graft mutations are run.
+	ExpectRejected bool
 }
 
 type Win struct{ Off, Len int }
